@@ -26,12 +26,8 @@ META = {
 def run(ctx: Ctx):
     sa = _sitebase.analysis(ctx)
     _sitebase.floors(ctx, sa)
-    for s in sa.sites.values():
-        ctx.count("site-has-handler")
-        ctx.obligations += 1
     _sitebase.report(ctx, sa, {"unsupported": "supported", "unsound": "sound"},
                      {"unsupported": "site-has-handler"})
-    # fix the bookkeeping for site-has-handler successes
     ctx.extra["sites"] = len(sa.sites)
     ctx.extra["handler_kinds"] = {}
     for s in sa.sites.values():
